@@ -54,6 +54,19 @@ Theorem C02_wildcards_never_match_separator : forall dot segs n,
 Proof. exact C02Path.wildcards_never_match_separator. Qed.
 Print Assumptions C02_wildcards_never_match_separator.
 
+(* runs of separators in the pattern count as one: written with every separator respelled as any non-empty run of `/` and
+   escaped `\/` (C02Path.punparse_r: each segment carries the run written after it), a flat path pattern compiles to the
+   very regex of the pattern with single separators - for every such pattern and every spelling (no bound) *)
+Theorem C02_separator_runs : forall flags isb (l : list (list C01Flat.tok * (bool * list bool))),
+  l <> [] -> Forall (fun x => C02Path.seg_wf (fst x) = true) l ->
+  has flags Mwcparse.PATHNAME = true -> FlagFuns.is_unix_style linux flags = true -> has flags Mwcparse.EXTMATCH = false ->
+  has flags Mwcparse.NODOTDIR = false -> has flags Mwcparse.REALPATH = false ->
+  has flags Mwcparse.u_ANCHOR = false -> has flags Mwcparse.MATCHBASE = false ->
+  has flags Mwcparse.u_EXTMATCHBASE = false -> has flags Mwcparse.u_TRANSLATE = false ->
+  wcparse linux flags isb (C02Path.punparse_r l) = wcparse linux flags isb (C02Path.punparse (map fst l)).
+Proof. exact C02Path.wcparse_path_runs. Qed.
+Print Assumptions C02_separator_runs.
+
 (* ---- patterns with `**` segments, end to end ---------------------------------------------------------------------------
    Units = ordinary segments (as above), each optionally preceded by `**/`, optionally a final `/**` (or the lone `**`);
    GLOBSTAR on, GLOBSTARLONG/DOTMATCH off, Unix rules.  The parser model prints the regex C02Glob.emit_pathG, and under the
